@@ -74,7 +74,7 @@ claimed.update({
 claimed.update({
  "C11": dict(level="exploration", ref="§5 C11",
    text="Authentication on; four users with pull/push rights over four streams; 0-2 administrator edits through the real API (narrow, widen, delete, re-create, password change); then 3-6 requests out of HTTP-FLV, HLS playlist and segment, RTSP digest play and publish, ws-rtsp upgrade plus a publish attempt through the WebSocket session, management API calls, token lifecycle (refresh token as access token, superseded token, invented token, expiry after 2 h on the fake clock) and an attacker deriving tokens from the identifiers disclosed to an unauthenticated client. Oracle: reference monitor decision(user, action, path) on the table as last saved with an independent pattern matcher: media / publication / management happens iff allowed (false grants and false refusals are both violations).",
-   note="Trusted: the reference matcher (harness/oracle/authz.go, written from docs/config.md and the property text), the harness HTTP/1.1 loop and gorilla WebSocket client over sim.Conn, the fake clock for token expiry. A ws-rtsp session opened before the edits is used after them. WSP and WebSocket-FLV entry points are not driven; TLS is not simulated; the clock only moves forward."),
+   note="Trusted: the reference matcher (harness/oracle/authz.go, written from docs/config.md and the property text), the harness HTTP/1.1 loop and gorilla WebSocket client over sim.Conn, the fake clock for token expiry. A ws-rtsp session opened before the edits is used after them; WSP (control+data channel, wrapped DESCRIBE/SETUP/PLAY) and WebSocket-FLV are entry points of their own; TLS is not simulated; the clock only moves forward."),
 })
 pending = {
 }
